@@ -98,9 +98,17 @@ def fam_params(fam):
     return st.just([])
 
 
+HIGH_ORDERS = [150, 170, 171, 172, 200, 256, 300, 400, 500]     # still well inside the meaningful range of the recurrences
+HIGH_FAMS = ('legendre', 'cheby1', 'cheby2', 'cheby3', 'cheby4')      # families whose scipy / trig references stay accurate there
+
+
 def strat_values(tier):
+    def n_of(fam):
+        if fam in HIGH_FAMS:
+            return st.one_of(orders(tier), orders(tier), orders(tier), st.sampled_from(HIGH_ORDERS))
+        return orders(tier)
     return st.sampled_from(FAMS).flatmap(lambda fam: st.fixed_dictionaries({
-        'fam': st.just(fam), 'n': orders(tier), 'p': fam_params(fam), 'shape': point_shapes(), 'edge': st.booleans(), 'seed': U.seeds}))
+        'fam': st.just(fam), 'n': n_of(fam), 'p': fam_params(fam), 'shape': point_shapes(), 'edge': st.booleans(), 'seed': U.seeds}))
 
 
 def check_values(case, ctx):
@@ -560,6 +568,97 @@ def check_q2d_gram(case, ctx):
             poly_degree_and_sign(ctx, q, n, 'Q2d', 'Q2d(%d,%d,u,0)/u^%d as a polynomial in u^2' % (n, am, am))
 
 
+
+# ---- sequence evaluators against the same independent definitions ----------------------------------------
+def _order_list(tier):
+    top = {'quick': 40, 'thorough': 100}[tier]
+    return st.one_of(
+        st.tuples(st.integers(0, 3), st.integers(1, 10)).map(lambda t: list(range(t[0], t[0] + t[1]))),
+        st.lists(st.integers(0, top), min_size=1, max_size=8, unique=True).map(sorted),
+        st.integers(0, top).map(lambda n: [n]))
+
+
+def strat_seq(tier):
+    nmax = {'quick': 20, 'thorough': 40}[tier]
+    one_d = st.sampled_from(FAMS).flatmap(lambda fam: st.fixed_dictionaries({
+        'kind': st.just('1d'), 'fam': st.just(fam), 'ns': _order_list(tier), 'p': fam_params(fam), 'npts': st.integers(1, 9), 'seed': U.seeds}))
+    zern = st.fixed_dictionaries({'kind': st.just('zernike'), 'nms': st.lists(nm_pairs(nmax), min_size=1, max_size=8), 'both_signs': st.booleans(),
+                                  'norm': st.booleans(), 'npts': st.integers(1, 9), 'seed': U.seeds})
+    q2d = st.fixed_dictionaries({'kind': st.just('q2d'), 'nms': st.lists(st.tuples(st.integers(0, 8), st.integers(-8, 8)).map(list), min_size=1, max_size=7),
+                                 'npts': st.integers(1, 9), 'seed': U.seeds})
+    q1d = st.fixed_dictionaries({'kind': st.sampled_from(['qbfs', 'qcon']), 'ns': _order_list('quick'), 'npts': st.integers(1, 9), 'seed': U.seeds})
+    return st.one_of(one_d, one_d, zern, zern, q2d, q1d)
+
+
+def check_seq(case, ctx):
+    """the *_seq evaluators return, mode for mode, the polynomial the definition specifies (scipy / exact radial sums / closed forms);
+    zernike_nm_seq with both signs of m and norm on/off, Q2d_seq with gaps in |m|."""
+    from prysm import polynomials as P
+    kind = case['kind']
+    r_ = U.rng_of(case['seed'], 31)
+    npts = case['npts']
+    ctx.nt(True)
+    if kind == '1d':
+        fam, ns, p = case['fam'], case['ns'], case['p']
+        fn, (lo, hi) = fam_table()[fam]
+        seqfn = getattr(P, fam + '_seq')
+        x = r_.uniform(lo, hi, npts)
+        ctx.label('seq:' + fam, 'gapped' if ns != list(range(ns[0], ns[0] + len(ns))) else 'contiguous', 'from0' if ns[0] == 0 else 'from>0')
+        got = np.asarray(ctx.call(seqfn, ns, *p, x))
+        U.check_shape(got, (len(ns), npts), fam + '_seq')
+        for k, n in enumerate(ns):
+            want = ref_value(fam, n, p, x)
+            scale = float(np.max(np.abs(ref_value(fam, n, p, np.linspace(lo, hi, 9)))))
+            U.check_close(got[k], want, RT, '%s_seq:%s' % (fam, n_class(n)), '%s_seq(%s, %s)[%d] (order %d) vs scipy.special' % (fam, ns, p, k, n), atol=RT * scale)
+        return
+    if kind == 'zernike':
+        nms = [list(v) for v in case['nms']]
+        if case['both_signs']:
+            nms = nms + [[n, -m] for n, m in nms if m != 0]        # both (n,+m) and (n,-m) in one call
+        norm = case['norm']
+        rr = r_.uniform(0, 1, npts)
+        tt = r_.uniform(-math.pi, math.pi, npts)
+        ctx.label('seq:zernike', 'norm' if norm else 'no-norm', 'both-signs' if case['both_signs'] else 'as-drawn')
+        got = np.asarray(ctx.call(P.zernike_nm_seq, [tuple(v) for v in nms], rr, tt, norm=norm))
+        U.check_shape(got, (len(nms), npts), 'zernike_nm_seq')
+        for k, (n, m) in enumerate(nms):
+            am = abs(m)
+            az = np.ones_like(tt) if m == 0 else np.sin(am * tt) if m < 0 else np.cos(m * tt)
+            N = math.sqrt(2 * (n + 1) / (2 if m == 0 else 1)) if norm else 1.0
+            want = N * zernike_radial_exact(n, am, rr) * az
+            U.check_close(got[k], want, RT, 'zernike_nm_seq:%s' % ('norm' if norm else 'no-norm'),
+                          'zernike_nm_seq(%s, norm=%s)[%d] = (n=%d, m=%d) vs explicit radial sum' % (nms, norm, k, n, m), atol=RT * N)
+        return
+    if kind == 'q2d':
+        nms = [[n, m] for n, m in case['nms']]
+        uu = r_.uniform(0.05, 1, npts)
+        tt = r_.uniform(-math.pi, math.pi, npts)
+        ams = sorted({abs(m) for _, m in nms})
+        ctx.label('seq:q2d', 'm-gap' if ams != list(range(ams[0], ams[0] + len(ams))) else 'm-dense')
+        got = np.asarray(ctx.call(P.Q2d_seq, [tuple(v) for v in nms], uu, tt))
+        U.check_shape(got, (len(nms), npts), 'Q2d_seq')
+        for k, (n, m) in enumerate(nms):
+            # the single-order routine is pinned by q2d_gram (uniqueness of the orthonormal slope basis) and q_values in this property
+            want = np.asarray(ctx.call(P.Q2d, n, m, uu, tt))
+            U.check_close(got[k], want, 1e-9, 'Q2d_seq', 'Q2d_seq(%s)[%d] = (n=%d, m=%d) vs Q2d' % (nms, k, n, m), atol=1e-9 * max(1.0, float(np.max(np.abs(want)))))
+        return
+    ns = case['ns']
+    uu = r_.uniform(0, 1, npts)
+    ctx.label('seq:' + kind)
+    if kind == 'qcon':
+        got = np.asarray(ctx.call(P.Qcon_seq, ns, uu))
+        U.check_shape(got, (len(ns), npts), 'Qcon_seq')
+        for k, n in enumerate(ns):
+            want = uu ** 4 * sps.eval_jacobi(n, 0, 4, 2 * uu * uu - 1)
+            U.check_close(got[k], want, RT, 'Qcon_seq', 'Qcon_seq(%s)[%d] vs u^4 P_n^(0,4)(2u^2-1)' % (ns, k), atol=RT)
+    else:
+        got = np.asarray(ctx.call(P.Qbfs_seq, ns, uu))
+        U.check_shape(got, (len(ns), npts), 'Qbfs_seq')
+        for k, n in enumerate(ns):
+            want = qbfs_table(n, uu * uu) * (uu * uu) * (1 - uu * uu) if n <= 5 else np.asarray(ctx.call(P.Qbfs, n, uu))
+            U.check_close(got[k], want, RT, 'Qbfs_seq', 'Qbfs_seq(%s)[%d] (order %d)' % (ns, k, n), atol=RT)
+
+
 CLAUSES = [
     HypClause('values_1d', strat_values, check_values, examples={'quick': 2000, 'thorough': 8000}, shards={'quick': 2, 'thorough': 8}),
     HypClause('dickson', strat_dickson, check_dickson, examples={'quick': 400, 'thorough': 2000}, shards={'quick': 2, 'thorough': 8}),
@@ -571,4 +670,5 @@ CLAUSES = [
     HypClause('q_values', strat_q_values, check_q_values, examples={'quick': 600, 'thorough': 3000}, shards={'quick': 1, 'thorough': 4}),
     EnumClause('qbfs_gram', enum_qbfs_gram, check_qbfs_gram, shards={'quick': 4, 'thorough': 6}),
     HypClause('q2d_gram', strat_q2d_gram, check_q2d_gram, examples={'quick': 100, 'thorough': 500}, shards={'quick': 2, 'thorough': 8}),
+    HypClause('values_seq', strat_seq, check_seq, examples={'quick': 500, 'thorough': 3000}, shards={'quick': 2, 'thorough': 8}),
 ]
